@@ -9,5 +9,6 @@ CONSTANTS
   GcProtectsBuilding = FALSE
   MaxFaults = 1
   StoreMetaFirst = FALSE
+  KillWaits = TRUE
 INVARIANT NeverDeletesBuilding
 CHECK_DEADLOCK FALSE
